@@ -9,7 +9,7 @@ package crlstore
 //@ spec func storeHas(s ref, k string) bool = ite(typeis(s, *MapStore), has(as(s, *MapStore).Map, k), ite(typeis(s, *LevelDbStore), $ldbhas[as(s, *LevelDbStore).Db][k], absHas(s, k)))
 //@ spec func mapStoreOK(m ref) bool = m != nil && m.Map != nil && m.Serializer != nil && (forall k string :: has(m.Map, k) ==> m.Map[k] != nil)
 //@ spec func ldbStoreOK(l ref) bool = l != nil && l.Db != nil && l.Serializer != nil && l.Logger != nil
-//@ spec func storeOK(s ref) bool = s != nil && (typeis(s, *MapStore) ==> mapStoreOK(as(s, *MapStore))) && (typeis(s, *LevelDbStore) ==> ldbStoreOK(as(s, *LevelDbStore)))
+//@ spec func storeOK(s ref) bool = closableOK(s) && s != nil && (typeis(s, *MapStore) ==> mapStoreOK(as(s, *MapStore))) && (typeis(s, *LevelDbStore) ==> ldbStoreOK(as(s, *LevelDbStore)))
 //@ spec func entryKey(issuerStr string, serialStr string) string = sum64(issuerStr + "_" + serialStr)
 //@ spec func added(s ref, k string) bool = forall q string :: storeHas(s, q) == (old(storeHas(s, q)) || q == k)
 //@ spec func atMostAdded(s ref, k string) bool = forall q string :: storeHas(s, q) ==> (old(storeHas(s, q)) || q == k)
@@ -121,6 +121,7 @@ package crlstore
 //@   assigns X.fs, X.ldbhas, X.retry
 //@   fresh r0
 //@   ensures err == nil ==> ret != nil && storeOK(ret) && isTempStore(ret) == temporary
+//@   ensures err != nil ==> ret == nil
 
 // ---- serializer (encoding/asn1 round trips are assumed, see DESIGN C18)
 
